@@ -430,15 +430,24 @@ func checkLenGuards(c *Ctx) {
 				if isRangeIndex(index) {
 					continue // compiler-generated range loop: strict by construction
 				}
-				idx := stripConv(TermOf(index)).String()
+				idxT := stripConv(TermOf(index))
+				idx := idxT.String()
 				bs := TermOf(base).String()
+				// terms are position-free: two loop counters print alike, so identity is by SSA value
+				// where both sides have one
+				isIdx := func(t *Term) bool {
+					if t.V != nil && idxT.V != nil {
+						return t.V == idxT.V
+					}
+					return t.String() == idx
+				}
 				var rel []Fact
 				for _, f := range FactsAtInstr(in) {
 					l, r := stripConv(f.L), stripConv(f.R)
 					isLenOfBase := func(t *Term) bool {
 						return t.Op == "len" && t.Name == "len" && len(t.Args) == 1 && t.Args[0].String() == bs
 					}
-					if (l.String() == idx && isLenOfBase(r)) || (r.String() == idx && isLenOfBase(l)) {
+					if (isIdx(l) && isLenOfBase(r)) || (isIdx(r) && isLenOfBase(l)) {
 						rel = append(rel, f)
 					}
 				}
@@ -448,8 +457,8 @@ func checkLenGuards(c *Ctx) {
 				n++
 				exact := false
 				for _, f := range rel {
-					l := stripConv(f.L).String()
-					if (l == idx && f.Op == "<") || (l != idx && f.Op == ">") {
+					lIsIdx := isIdx(stripConv(f.L))
+					if (lIsIdx && f.Op == "<") || (!lIsIdx && f.Op == ">") {
 						exact = true
 					}
 				}
